@@ -6,6 +6,7 @@
    once the first request is complete, and that the record does not depend on how the client's bytes
    were segmented, is C03's statement about the parser, not repeated here. *)
 From PM Require Import Lib.Bytes Lib.PyStr Ws.Sha1 Net.Auth Net.AuthFacts Net.PluginChain Net.PluginChainFacts.
+From Coq Require Import ZArith.
 
 (* What the credential check accepts, exactly: a proxy-authorization entry in the header dict whose
    value splits on runs of ASCII whitespace (space, \t, \n, \v, \f, \r) into exactly two tokens, the
@@ -121,7 +122,7 @@ Proof. vm_compute. split; reflexivity. Qed.
 (* the hypotheses of C08_reaches_nothing and C08_creds_not_forwarded are satisfiable, and a concrete
    connection shows the scrubbing on the first and on a later request *)
 Definition ex_req (path : string) (extra : list bytes) : request :=
-  mkRequest (bs "GET") (Some (bs "h.example")) (Some 80) (Some (bytes_of_string path)) HTTP_1_1
+  mkRequest (bs "GET") (Some (bs "h.example")) (Some 80%Z) (Some (bytes_of_string path)) HTTP_1_1
             (headers_of_lines ([bs "Host: h.example"] ++ extra)) None false.
 Definition ex_cf : config := mkConfig (bs "proxy.py v0") [].
 Definition ex_creds : list bytes := [bs "Proxy-Authorization: Basic dXNlcjpwYXNz"; bs "Proxy-Connection: keep-alive"].
